@@ -363,7 +363,7 @@ Definition norm_dvrest (r : dvrest) : dvrest :=
             (option_map norm_date (dv_srv r)) (dv_srvp r).
 
 (* ---- Variant -------------------------------------------------------------------------------------- *)
-Definition VARIANT_SIZE : Z := 24.      (* size_of::<Variant>(), checked by the harness *)
+Definition VARIANT_SIZE : Z := 32.      (* size_of::<Variant>(), checked by the harness *)
 
 Definition known_ty (ty : Z) : bool := (1 <=? ty) && (ty <=? 25).
 Definition type_of (v : variant) : Z :=
